@@ -34,6 +34,21 @@ Proof.
 Qed.
 Print Assumptions C17_reported_noise_is_sum_of_consumed_increments.
 
+(* Which time each internal step is taken at: over a run made of any list of
+   integrate() calls with N_1, N_2, ... sub-steps, the k-th internal step sees
+   the time t0 + k dt (k = 0, 1, 2, ... without gap or repeat), so the times
+   at which H, the collapse operators and the Wiener feedback are evaluated do
+   not depend on how the output grid cuts the run into integrate() calls. *)
+Theorem C17_internal_steps_see_consecutive_times :
+  forall (steps steps' : list nat) pos,
+    concat (step_times pos steps) = seq pos (fold_right plus 0 steps) /\
+    (fold_right plus 0 steps = fold_right plus 0 steps' ->
+     concat (step_times pos steps) = concat (step_times pos steps')).
+Proof.
+  intros. split; [apply step_times_concat|apply step_times_grid_independent].
+Qed.
+Print Assumptions C17_internal_steps_see_consecutive_times.
+
 (* Replay from a record: an array laid out like result.dW / result.measurement
    of a trajectory (any number n of stochastic operators, any length, homodyne
    (n, T) or heterodyne (n/2, 2, T) layout), given to PreSetWiener (shape
